@@ -357,16 +357,18 @@ class Executor:
 
         def handler(ty: t.Any, args: t.Any, *, handlers: t.Any) -> t.Any:
             return conv if ty is RegList else NotImplemented
-        first = (outcome(lambda: pane.from_data([1], RegList)), outcome(lambda: pane.from_data({'items': [1]}, Holder)))
+        first = (outcome(lambda: pane.from_data([1], RegList)), outcome(lambda: pane.from_data({'items': [1]}, Holder)),
+                 outcome(lambda: Holder(items=[1])), outcome(lambda: Holder(items=[2]).__replace__(items=[1])))
         from pane.convert import register_converter_handler
         register_converter_handler(handler)
         self.ctx.evaluated()
-        after = (outcome(lambda: pane.from_data([1], RegList)), outcome(lambda: pane.from_data({'items': [1]}, Holder)))
-        got = [list(after[0][1]) if after[0][0] == 'ok' else after[0], list(after[1][1].items) if after[1][0] == 'ok' else after[1]]
-        if got != [['from-the-registered-handler']] * 2:
+        after = (outcome(lambda: pane.from_data([1], RegList)), outcome(lambda: pane.from_data({'items': [1]}, Holder)),
+                 outcome(lambda: Holder(items=[1])), outcome(lambda: Holder(items=[2]).__replace__(items=[1])))
+        got = [list(after[0][1]) if after[0][0] == 'ok' else after[0]] + [list(a[1].items) if a[0] == 'ok' else a for a in after[1:]]
+        if got != [['from-the-registered-handler']] * 4:
             self.ctx.fail('history-independent', 'handler-registered-after-first-use',
                           f"class RegList(list) converted once (-> {short(first[0][1], 40)}), then register_converter_handler(handler for RegList): "
-                          f"from_data([1], RegList) and a dataclass field of that type now give {short(got, 100)}; a converter built afresh "
+                          f"from_data([1], RegList), a dataclass field of that type through from_data, the constructor and __replace__ now give {short(got, 160)}; a converter built afresh "
                           f"comes from the handler")
         self.ctx.label('register-after-use')
 
